@@ -466,9 +466,14 @@ def nat_custom_handlers(h):
 def sym_wrap_handler(vc):
     from pyvc.api import real_function, check, cover, ufunc, sym_row, sym_str, sym_int, sym_cell
     fk = vc.under_contract(SV_FILE, ['wrap_handler'])
-    for arity in (4, 5):
+    for arity in (4, 5, '5-with-default'):
         def thunk(it, arity=arity):
             wh = real_function(it, 'dataflows.base.schema_validator', 'wrap_handler')
+            if arity == '5-with-default':
+                # a five-parameter handler stays one when its last parameter has a default (`field=None`): it is handed the field
+                h = ufunc('handler', pure=False, params=['res_name', 'row', 'i', 'e', 'field='])
+                check(it, 'five-args-identity[field=None]', it.call(wh, [h]) is h)
+                return
             params = ['res_name', 'row', 'i', 'e', 'field'][:arity]
             h = ufunc('handler', pure=False, params=params)
             w = it.call(wh, [h])
